@@ -27,6 +27,8 @@ def gen_cases(rng, n, tier):
             + B.all_cfgs('blog', dict(mgr_excl=True))[::3] + B.all_cfgs('blog', dict(mgr_excl=True, excl_notes=True))[::5]
             # the many-to-many relationship excluded on both sides: no association version table, link changes unversioned
             + B.all_cfgs('blog', dict(excl_labels=True))[::3]
+            # the exclusion declared two levels up, the class in between with a __versioned__ of its own
+            + B.all_cfgs('blog', dict(mixin_excl3=True))[::3]
             # a hierarchy whose base class excludes a column; subclasses inherit __versioned__ or declare their own
             + [c for c in B.all_cfgs('inh', dict(base_excl=True)) if not c['null_delete']][::3]
             + [c for c in B.all_cfgs('inh', dict(base_excl=True, own_v=True)) if not c['null_delete']][::2])
@@ -53,6 +55,9 @@ def corpus():
                  prog=[['add', 0, 1, {'a': 1}], ['add', 3, 1, {'a': 0}], ['commit'], ['noteto', 1, 1], ['commit'],
                        ['set', 0, 1, {'x': 5}], ['commit'], ['set', 0, 1, {'x': 6}], ['tagappend', 1, 1], ['commit']]),
             # exclusion configured for the manager only: transactions changing only the excluded column
+            dict(cfg=dict(shape='blog', strategy='validity', mixin_excl3=True),
+                 prog=[['add', 0, 1, {'a': 1, 'x': 1}], ['commit'], ['set', 0, 1, {'x': 5}], ['commit'],
+                       ['set', 0, 1, {'a': 2}], ['commit'], ['set', 0, 1, {'x': 6}], ['commit']]),
             dict(cfg=dict(shape='blog', strategy='validity', excl_labels=True),
                  prog=[['add', 0, 1, {'a': 1}], ['add', 2, 1, {'a': 1}], ['link', 1, 1], ['commit'], ['unlink', 1, 1],
                        ['set', 0, 1, {'a': 2}], ['commit'], ['link', 1, 1], ['commit'], ['unlink', 1, 1], ['flush'],
